@@ -44,10 +44,13 @@ def st_case(tier, deep=False):
                 break
         nops = draw(st.integers(3, 8 if tier == "quick" else 16))
         progs = []
+        # masters of different address widths (the first one narrower: it addresses only the slaves it can reach)
+        low = [j for j in range(S) if wins[j][0] + wins[j][1] <= (1 << 16)]
+        narrow = 16 if (kind in ("shared", "crossbar") and M >= 2 and low and not deep and draw(st.integers(0, 2)) == 0) else None
         for m in range(M):
             ops = []
             for _ in range(nops):
-                j = draw(st.integers(0, S - 1))
+                j = draw(st.integers(0, S - 1)) if not (narrow and m == 0) else draw(st.sampled_from(low))
                 word = m * 4 + draw(st.integers(0, 3))          # master m owns words 4m..4m+3 of every slave window
                 ops.append({"we": draw(st.integers(0, 1)), "addr": wins[j][0] + 4 * word, "data": draw(st.integers(0, 0xffffffff)),
                             "strb": draw(st.sampled_from([15, 15, 3, 8, 5]))})
@@ -62,7 +65,7 @@ def st_case(tier, deep=False):
                 n_ = draw(st.integers(5, 10)) if m == mm else draw(st.integers(1, 4))
                 progs[m] = [{"we": d if draw(st.integers(0, 7)) else 1 - d, "addr": wins[0][0] + 4 * (m * 4 + (k_ % 4)),
                              "data": draw(st.integers(0, 0xffffffff)), "strb": 15} for k_ in range(n_)]
-        return {"kind": kind, "M": M, "S": S, "wins": [list(w) for w in wins], "progs": progs,
+        return {"kind": kind, "M": M, "S": S, "wins": [list(w) for w in wins], "progs": progs, "narrow": narrow,
                 "K": (draw(st.sampled_from([2, 4, 6, 8])) if not deep else draw(st.sampled_from([4, 5, 6, 8]))) if multi else 1,
                 # data before address only where no decoder is involved (known finding axil-decoder-w-before-aw)
                 "w_after_aw": draw(st.booleans()) if kind in ("arbiter", "p2p") else True,
@@ -90,6 +93,8 @@ def run_case(case):
     kind, M, S = case["kind"], case["M"], case["S"]
     top = Module()
     masters = [axi.AXILiteInterface(data_width=32, address_width=32) for _ in range(M)]
+    if case.get("narrow"):
+        masters[0] = axi.AXILiteInterface(data_width=32, address_width=case["narrow"])
     slaves = [axi.AXILiteInterface(data_width=32, address_width=32) for _ in range(S)]
     regions = [SoCRegion(origin=o, size=s) for o, s in case["wins"]]
     decs = [(r.decoder(_Bus), s) for r, s in zip(regions, slaves)]
@@ -116,7 +121,7 @@ def run_case(case):
         sa.mem_mask = 63
     limit = 400 + sum(len(p) for p in case["progs"]) * 250
     cyc = bench.run(top, mags + sags, limit, stop=lambda t: all(m.finished() for m in mags))
-    cls = ["kind:" + kind, "M%dS%d" % (M, S), "K=%d" % case["K"]]
+    cls = ["kind:" + kind, "M%dS%d" % (M, S), "K=%d" % case["K"]] + (["mixed-address-widths"] if case.get("narrow") else [])
     ctx = "%s %dx%d K=%d Q=%d" % (kind, M, S, case["K"], case["Q"])
     for j, sa in enumerate(sags):
         if sa.hold_violations():
